@@ -23,6 +23,14 @@ def gen_cases(sd, tr):
         seen.add(s); shapes.append(s)
     allpairs = [(l, r) for l in range(3) for r in range(3)]
     cases = []
+    # systematic family: every row section (blocks of numSIMDRows*4 rows, blocks of 4 rows, leftover rows) meets every column
+    # section (blocked, single vector, masked / scalar remainder of at least two columns) with K beyond the clipped k-range,
+    # for every tag pair with a triangular right operand
+    for m in (14, 21, 37):
+        for n in (11, 19):
+            for (tl, trr) in [(0, 2), (2, 2), (1, 2), (0, 1), (2, 1)]:
+                for ty in ('double', 'float'):
+                    cases.append({'id': len(cases), 'ty': ty, 'M': m, 'K': n + 2, 'N': n, 'tl': tl, 'tr': trr, 'sa': g.next() % 100000, 'sb': g.next() % 100000})
     for (m, k, n) in shapes:
         pairs = allpairs if tr != 'quick' else g.sample(allpairs, 3)
         tys = ['double', 'float', 'int32', 'int64'] if tr != 'quick' else g.sample(['double', 'float', 'int32', 'int64'], 2)
@@ -114,7 +122,7 @@ def main():
     proof = prove('Properties_C17.v')
     handle_proof(rep, proof, 'see correspondence results of this run')
     cases = gen_cases(sd, tr); byid = {c['id']: c for c in cases}
-    cfgs = quick_grid() if tr == 'quick' else thorough_grid() + [Config('avx2', 'c++14', '-O2', ['FASTOR_MATMUL_INNER_BLOCK_SIZE=%d' % i]) for i in (1, 3, 4, 5)]
+    cfgs = quick_grid() + [Config('avx2', 'c++14', '-O2', ['FASTOR_MATMUL_INNER_BLOCK_SIZE=4']), Config('avx512', 'c++17', '-O2', ['FASTOR_MATMUL_INNER_BLOCK_SIZE=5', 'FASTOR_MATMUL_OUTER_BLOCK_SIZE=1'])] if tr == 'quick' else thorough_grid() + [Config('avx2', 'c++14', '-O2', ['FASTOR_MATMUL_INNER_BLOCK_SIZE=%d' % i]) for i in (1, 3, 4, 5)]
     nshard = 8 if tr == 'quick' else 40
     shards = [cases[i::nshard] for i in range(nshard)]
     mcfgs = {}
